@@ -174,6 +174,10 @@ func rootOfV(v ssa.Value, visiting map[ssa.Value]bool) (class string, fresh bool
 			if _, isAlloc := x.X.(*ssa.Alloc); isAlloc {
 				// a local variable holding a pointer: look at what was stored into it
 				a := x.X.(*ssa.Alloc)
+				if visiting[a] {
+					return "local", true // cycle through the same local: decided by its other stores
+				}
+				visiting[a] = true
 				allFresh := true
 				n := 0
 				for _, r := range *a.Referrers() {
